@@ -49,17 +49,18 @@ type storeSetting struct {
 }
 
 type storeIn struct {
-	Ev       string         `json:"ev"`
-	ID       int            `json:"id"`
-	Text     string         `json:"text"`
-	Texts    []string       `json:"texts"`
-	Diff     string         `json:"diff"`
-	Serial   uint32         `json:"serial"`
-	Settings []storeSetting `json:"settings"`
-	Detail   bool           `json:"detail"`
-	V2       bool           `json:"v2"`
-	Order    string         `json:"order"`
-	Tag      string         `json:"tag"`
+	Ev        string         `json:"ev"`
+	ID        int            `json:"id"`
+	Text      string         `json:"text"`
+	Texts     []string       `json:"texts"`
+	Diff      string         `json:"diff"`
+	Serial    uint32         `json:"serial"`
+	Settings  []storeSetting `json:"settings"`
+	Detail    bool           `json:"detail"`
+	V2        bool           `json:"v2"`
+	Order     string         `json:"order"`
+	Tag       string         `json:"tag"`
+	AllowFail bool           `json:"allowfail"`
 }
 
 // bag: key -> values (each as printable string via hx.VRep), insertion order kept
@@ -330,7 +331,7 @@ func storeMain(args []string) {
 			for _, s := range e.Settings {
 				ref, referr := storeReference(e.Text, s.Kind, s.V2, e.Serial)
 				got, err := storeCompile(src, dir, s)
-				base := map[string]interface{}{"ev": "compile", "id": e.ID, "setting": s.Name, "opts": s, "err": errText(err), "referr": errText(referr), "tag": e.Tag}
+				base := map[string]interface{}{"ev": "compile", "id": e.ID, "setting": s.Name, "opts": s, "err": errText(err), "referr": errText(referr), "tag": e.Tag, "allowfail": e.AllowFail}
 				if ref == nil {
 					ref = storeBag{}
 				}
